@@ -3,6 +3,7 @@
    the kernel's segments of a coalesced buffer verify (Csum.gro_segment_checksums_valid), packets
    that are passed through are byte-identical: the multiset of (verdict, compared bytes) is kept. *)
 From WG Require Import Base.Prelude Gen.Constants Gro.Bytes Gro.Model Gro.KernelSpec Gro.Spec Gro.Proofs Gro.Csum Gro.Headers Gro.HeadersTcp Gro.Lossless Gro.Holds Gro.Order.
+From WG Require Gro.Check.
 From Coq Require Import Permutation.
 Local Open Scope N_scope.
 
@@ -150,25 +151,235 @@ Proof.
 Qed.
 Print Assumptions gro_members_csum_valid.
 
-Lemma map_canonv (pkf : N -> list N) : forall (S : list (list N)) (M : list N),
-  map canon S = map (fun m => canon (pkf m)) M ->
-  (forall x, In x S -> l4_csum_ok x = true) -> (forall m, In m M -> l4_csum_ok (pkf m) = true) ->
-  map canonv S = map (fun m => canonv (pkf m)) M.
+(* ------------------------------------------------ the NS/AE flag (bit 0 of TCP byte 12) *)
+(* the header of a coalesced TCP buffer is the header of one of its members, as far as byte 12 goes *)
+Definition item_n (inp : list buf) (tcp : bool) (it : item) (P : list N) (mem : list N) : Prop :=
+  tcp = true -> exists m, In m mem /\ byte_at P (it_iph it + 12) = byte_at (b_pkt (get_buf inp m)) (it_iph it + 12).
+Definition item_ok6 (inp : list buf) (capsb : Prop) (tcp : bool) (it : item) (P : list N) (mem : list N) : Prop :=
+  item_ok3 inp capsb tcp it P mem /\ item_n inp tcp it P mem.
+
+Lemma fresh_item_ok6 inp (capsb : Prop) tcp pkt k v6 new :
+  fresh_item tcp pkt k v6 new -> pkt = b_pkt (get_buf inp k) -> item_ok6 inp capsb tcp new pkt [k].
 Proof.
-  induction S as [|x S IH]; intros [|m M] H HS HM; cbn [map] in *; try discriminate; [reflexivity|].
-  inversion H. f_equal.
-  - unfold canonv. rewrite (HS x) by (left; reflexivity). rewrite (HM m) by (left; reflexivity). f_equal. assumption.
-  - apply IH; [assumption|intros y Hy; apply HS; right; exact Hy|intros y Hy; apply HM; right; exact Hy].
+  intros Hf Hp. split; [eapply fresh_item_ok3; eauto|]. intros _. exists k. split; [left; reflexivity|]. rewrite <- Hp. reflexivity.
 Qed.
 
-(* Clause 6 holds for every batch. *)
+Lemma merge_item_ok6 inp off (capsb : Prop) tcp pkt k v6 p it it' bufs bufs' mem :
+  True ->
+  merged_ok tcp pkt k off v6 p it it' bufs bufs' ->
+  pkt = b_pkt (get_buf inp k) -> b_pkt (get_buf bufs k) = pkt ->
+  it_idx it <> k -> (N.to_nat (it_idx it) < length bufs)%nat ->
+  item_ok6 inp capsb tcp it (b_pkt (get_buf bufs (it_idx it))) mem ->
+  item_ok6 inp capsb tcp it' (b_pkt (get_buf bufs' (it_idx it))) (if p then k :: mem else mem ++ [k]).
+Proof.
+  intros HC Hmo Hpk Hbk Hne Hlt [Hok3 Hn].
+  split; [eapply merge_item_ok3; eauto|]. intros ->. specialize (Hn eq_refl). destruct Hn as [m0 [Hm0 Em0]].
+  destruct Hok3 as [[[Hhl [Hg1 [Hiph [Hhd [Htc _]]]]] _] _].
+  destruct Hmo as [new [Hf [Hk2 [mode [Hp [Hmode [Hcan Hco]]]]]]].
+  pose proof (merge_iph _ _ _ _ _ _ Hf Hk2 Hiph Hhd) as Hi.
+  destruct Hf as [_ [_ [_ [_ [Hft [Hfl0 _]]]]]].
+  destruct (coalesce_tcp_success _ _ _ _ _ _ _ _ _ _ _ _ Hco) as [[_ [_ [_ [Sip _]]]] [Hb' _]].
+  rewrite Sip. set (P := b_pkt (get_buf bufs (it_idx it))) in *. unfold hl_of in Hhl.
+  set (iph := it_iph it) in *. set (tcph := it_tcph it) in *.
+  destruct mode; [contradiction| |]; cbn [is_prepend] in *; subst p.
+  - rewrite Hb'. unfold tcp_merge_bufs. cbn [is_prepend]. rewrite get_set_buf_same by exact Hlt. cbn [with_pkt b_pkt]. fold P. fold iph tcph.
+    change FLAGS_OFF with 13.
+    exists m0. split; [apply in_or_app; left; exact Hm0|]. rewrite <- Em0.
+    assert (Hfo : iph + 13 + 1 <= len P) by (clear - Hhl Htc; lia).
+    destruct (it_psh new).
+    + rewrite byte_at_app_l by (rewrite len_put_byte by exact Hfo; clear - Hfo; lia).
+      rewrite byte_at_put_byte by exact Hfo. destruct (N.eqb_spec (iph + 12) (iph + 13)); [lia|reflexivity].
+    + rewrite byte_at_app_l by (clear - Hfo; lia). reflexivity.
+  - rewrite Hb'. unfold tcp_merge_bufs. cbn [is_prepend].
+    rewrite get_set_buf_same by (rewrite set_buf_length; exact Hlt). cbn [with_pkt b_pkt]. fold P. fold iph tcph.
+    change FLAGS_OFF with 13.
+    exists k. split; [left; reflexivity|]. rewrite <- Hpk.
+    assert (Hfo : iph + 13 + 1 <= len pkt) by (clear - Hfl0 Hft Hi; unfold iph; lia).
+    destruct (it_psh it).
+    + rewrite byte_at_app_l by (rewrite len_put_byte by exact Hfo; clear - Hfo; lia).
+      rewrite byte_at_put_byte by exact Hfo. destruct (N.eqb_spec (iph + 12) (iph + 13)); [lia|reflexivity].
+    + rewrite byte_at_app_l by (clear - Hfo; lia). reflexivity.
+Qed.
+
+Lemma loop_inv_n udp off inp k (capsb : Prop) :
+  (k <= length inp)%nat -> s_err (loop_k udp off inp k) = false ->
+  allQ (item_ok6 inp capsb) (loop_k udp off inp k).
+Proof.
+  induction k as [|k IH]; intros Hk He.
+  - intros tcp it H. destruct tcp; destruct H.
+  - pose proof (loop_inv_all udp off inp k ltac:(lia)) as Hall.
+    unfold loop_k in *. rewrite indices_S, fold_left_app in *. cbn [fold_left] in *. rewrite N.add_0_l in *.
+    pose proof (err_sticky _ _ _ _ He) as He0. pose proof (IH ltac:(lia) He0) as IQ. destruct (Hall He0) as [I [I2 _]].
+    destruct (gro_step_spec udp off _ (N.of_nat k) (i_kt _ _ _ I) (i_ku _ _ _ I) He0 (inv_range inp k _ (Nat.lt_le_incl _ _ Hk) I) He) as [bz [Hz [_ Hs]]].
+    eapply (allQ_step inp off (item_ok6 inp capsb) (fun _ => True)); [| | |apply (inv_zero _ _ _ _ I Hz)|apply (i_nodup _ _ I2)|exact Logic.I|apply allQ_zero; [exact IQ|exact Hz]|exact Hs].
+    + intros. eapply fresh_item_ok6; eauto.
+    + intros. eapply merge_item_ok6; eauto.
+    + lia.
+Qed.
+
+(* packets on which the bit is read *)
+Definition tcpish (p : list N) : bool :=
+  match l3_parse p with
+  | Some (v6, iph, proto, frag) => negb frag && (proto =? 6) && (iph + 20 <=? len p)
+  | None => false
+  end.
+Lemma nsbit_not_tcpish p : tcpish p = false -> nsbit p = 0.
+Proof. unfold tcpish, nsbit. destruct (l3_parse p) as [[[[v6 iph] proto] frag]|]; [|reflexivity]. intros ->. reflexivity. Qed.
+Lemma nsbit_facts (v6 : bool) t p : hdr_facts true v6 t p -> (if v6 then 40 else 20) + 20 <= len p ->
+  tcpish p = true /\ nsbit p = byte_at p ((if v6 then 40 else 20) + 12) mod 2.
+Proof.
+  intros Hf Hl. unfold tcpish, nsbit. rewrite (l3_parse_of_facts true v6 t p Hf) by (destruct v6; lia).
+  cbn [negb N.eqb Pos.eqb andb]. destruct (N.leb_spec ((if v6 then 40 else 20) + 20) (len p)); [auto|lia].
+Qed.
+Lemma no_udp_flow_not_tcpish_or p : udp_flow p <> None -> tcpish p = false.
+Proof.
+  unfold udp_flow, tcpish. destruct (l3_parse p) as [[[[v6 iph] proto] frag]|]; [|reflexivity].
+  destruct (negb frag); cbn [andb]; [|reflexivity]. destruct (N.eqb_spec proto 17) as [->|]; cbn [andb]; [reflexivity|].
+  intros H. contradiction H. reflexivity.
+Qed.
+
+(* all TCP segments of the batch carry the same NS/AE flag *)
+Definition ns_agree (inp : list buf) : Prop :=
+  forall a b, In a inp -> In b inp -> tcpish (b_pkt a) = true -> tcpish (b_pkt b) = true -> nsbit (b_pkt a) = nsbit (b_pkt b).
+
+(* Per coalesced buffer: every datagram the kernel makes of it and every member carries one and the same bit. *)
+Theorem gro_ns_kept : forall (canUDP : bool) (offset : N) (bufs : list buf) (j : N),
+  ns_agree bufs ->
+  let s := handle_gro canUDP offset bufs in
+  s_err s = false -> merged_into (s_trace s) j ->
+  let b := get_buf (s_bufs s) j in
+  exists c, (forall p, In p (kernel_segment (b_hdr b) (b_pkt b)) -> nsbit p = c) /\
+            (forall m, In m (members (s_trace s) j) -> nsbit (b_pkt (get_buf bufs m)) = c).
+Proof.
+  intros udp off inp j Hns s He Hmj b.
+  destruct (N.eq_dec (v_gso (dec_vhdr (b_hdr b))) GSO_UDP_L4) as [Eu|Eu].
+  - (* UDP: the bit is not read *)
+    exists 0. destruct (gro_udp_segments_eligible udp off inp j He Hmj Eu) as [Hel Hfl]. fold s b in Hel, Hfl. split.
+    + intros p Hp. apply nsbit_not_tcpish. apply no_udp_flow_not_tcpish_or.
+      assert (Hx : In (Check.udp_eligible p, mkey p) (map (fun m => (true, mkey (pk inp m))) (members (s_trace s) j))).
+      { rewrite <- Hel. apply (in_map (fun p => (Check.udp_eligible p, mkey p))). exact Hp. }
+      apply in_map_iff in Hx as [m [E _]]. inversion E as [[E1 E2]]. symmetry in E1. rewrite (eligible_udp_flow _ E1). discriminate.
+    + intros m Hm. apply nsbit_not_tcpish. apply no_udp_flow_not_tcpish_or. apply (Hfl m Hm).
+  - (* TCP *)
+    subst b s. revert Eu. unfold handle_gro in *. rewrite gro_loop_is in *.
+    set (s0 := loop_k udp off inp (length inp)) in *.
+    assert (He0 : s_err s0 = false) by (destruct (s_err s0) eqn:E; [cbn iota in He; congruence|reflexivity]).
+    rewrite He0 in *. cbn [s_trace s_tw s_bufs] in *.
+    destruct (loop_inv_all udp off inp (length inp) (le_n _) He0) as [I [I2 I3]]. fold s0 in I, I2, I3.
+    pose proof (loop_inv_t udp off inp (length inp) True (le_n _) He0) as IQ. fold s0 in IQ.
+    pose proof (loop_inv_n udp off inp (length inp) True (le_n _) He0) as IN. fold s0 in IN.
+    destruct (i_cover _ I3 j Hmj) as [tcp [it [Hin Hidx]]].
+    pose proof (sel_total_in _ _ _ Hin) as Hint.
+    destruct (i_items _ _ _ I it Hint) as [Htw _].
+    destruct (IQ tcp it Hin) as [[[[Hhl [Hg1 [Hiph [Hhd [Htc [Hmz [Hml Hch]]]]]]] [Hhf Hlen]] _] Htt].
+    destruct (IN tcp it Hin) as [_ Hn].
+    pose proof (members_length_merged _ _ Hmj) as Hlen2.
+    rewrite Hidx in *.
+    assert (Hmpos : 0 < it_merged it) by (unfold len in Hml; lia).
+    assert (Hjlt : (N.to_nat j < length (s_bufs s0))%nat).
+    { rewrite (i_tw _ _ _ I) in Htw. apply tw_of_bound in Htw. rewrite (i_tr _ _ _ I) in Htw. rewrite (i_len _ _ _ I). lia. }
+    assert (Hfin : get_buf (account false (account true (s_bufs s0) (s_tcp s0)) (s_udp s0)) j = acc_buf tcp it (get_buf (s_bufs s0) j)).
+    { rewrite !account_flat. pose proof (i_nodup _ _ I2) as Hn0.
+      destruct tcp; unfold sel in Hin.
+      - rewrite fold_account_other.
+        + rewrite <- Hidx. apply fold_account_get; [apply (sel_nodup s0 true Hn0)|exact Hin|rewrite Hidx; exact Hjlt].
+        + intros y Hy E. apply (sel_cross_idx s0 true it y Hn0 Hin Hy). congruence.
+      - rewrite <- Hidx. rewrite fold_account_get; [|apply (sel_nodup s0 false Hn0)|exact Hin|rewrite fold_account_length, Hidx; exact Hjlt].
+        rewrite fold_account_other; [reflexivity|].
+        intros y Hy E. apply (sel_cross_idx s0 false it y Hn0 Hin Hy). congruence. }
+    rewrite Hfin.
+    set (B := get_buf (s_bufs s0) j) in *. set (P := b_pkt B) in *.
+    destruct (acc_buf_payload tcp it B Hmpos Hiph Htc Hhl) as [Hd [Hl Hh]].
+    assert (Hdec0 : v_gso (dec_vhdr (b_hdr (acc_buf tcp it B))) = if tcp then (if it_v6 it then GSO_TCPV6 else GSO_TCPV4) else GSO_UDP_L4).
+    { rewrite Hh, dec_enc_vhdr; [reflexivity|lia|lia| |destruct tcp; lia]. rewrite Hiph. destruct (it_v6 it); lia. }
+    intros Hnudp. rewrite Hdec0 in Hnudp.
+    destruct tcp; [|exfalso; apply Hnudp; reflexivity]. clear Hnudp Hdec0.
+    destruct (Htt Logic.I eq_refl) as [_ [_ [_ [_ [_ [Hag _]]]]]].
+    destruct (Hn eq_refl) as [m0 [Hm0 Em0]].
+    pose proof (acc_buf_bytes true it B Hmpos Hiph Htc Hhl Hlen) as Hb. cbn zeta in Hb. fold P in Hb, Hl, Hd.
+    pose proof (acc_buf_tcp_bytes it B Hmpos Hiph Htc Hhl Hlen) as HbF. fold P in HbF.
+    set (F := b_pkt (acc_buf true it B)) in *.
+    unfold hl_of in *.
+    set (v6 := it_v6 it) in *. set (iph := it_iph it) in *. set (tcph := it_tcph it) in *.
+    assert (HhF : hdr_facts true v6 tcph F).
+    { destruct Hb as [B0 [B1 B2]]. destruct Hhf as [F1 [F2 [F3 F4]]]. unfold hdr_facts.
+      rewrite B0. destruct v6.
+      - destruct B1 as [B6 _]. rewrite B6. refine (conj F1 (conj _ (conj F3 _))); [discriminate|].
+        intros _. rewrite Hiph in B2. rewrite B2. apply F4. reflexivity.
+      - destruct B1 as [B6 [B7 [B9 _]]]. rewrite B6, B7, B9. refine (conj F1 (conj F2 (conj F3 _))).
+        intros _. rewrite Hiph in B2. rewrite B2. apply F4. reflexivity. }
+    (* facts about a member *)
+    assert (Hmem : forall m, In m (members (s_trace s0) j) ->
+              tcpish (b_pkt (get_buf inp m)) = true /\ nsbit (b_pkt (get_buf inp m)) = byte_at (b_pkt (get_buf inp m)) (iph + 12) mod 2).
+    { intros m Hm. destruct (Hag m Hm) as [G1 [G2 _]].
+      assert (Hfm : hdr_facts true v6 tcph (b_pkt (get_buf inp m))).
+      { eapply (hdr_facts_tagree v6 tcph (iph + tcph)); [|exact G1|exact Hhf]. clear - Htc Hiph. rewrite Hiph. lia. }
+      rewrite Hiph. apply (nsbit_facts v6 tcph); [exact Hfm|]. clear - G2 Htc Hiph. rewrite Hiph in G2. lia. }
+    assert (Hbnd : forall m, In m (members (s_trace s0) j) -> In (get_buf inp m) inp).
+    { intros m Hm. unfold get_buf. apply nth_In.
+      pose proof (members_partition (s_trace s0)) as _.
+      apply members_spec in Hm as [->|[q [_ Hq]]].
+      - rewrite (i_len _ _ _ I) in Hjlt. exact Hjlt.
+      - rewrite (i_tr _ _ _ I) in Hq. exact Hq. }
+    exists (nsbit (b_pkt (get_buf inp m0))). split.
+    + (* a segment carries byte 12 of the buffer = byte 12 of member m0 *)
+      assert (Hgt : it_gso it < len P - (iph + tcph)).
+      { rewrite <- len_drop. apply chunks_two; [exact Hg1|]. rewrite Hch, map_length. exact Hlen2. }
+      assert (Hv6 : is_v6 F = v6).
+      { unfold is_v6. destruct HhF as [F1 _]. rewrite F1. destruct v6; reflexivity. }
+      assert (Hl3 : l3_len F = len F).
+      { unfold l3_len. rewrite Hv6, Hl. destruct Hb as [_ [B1 _]]. rewrite Hiph in Hhl. destruct v6.
+        - destruct B1 as [_ B4]. rewrite B4. lia.
+        - destruct B1 as [_ [_ [_ B4]]]. exact B4. }
+      assert (Hdec : dec_vhdr (b_hdr (acc_buf true it B)) =
+                     {| v_flags := K_NEEDS_CSUM; v_gso := if v6 then K_GSO_TCPV6 else K_GSO_TCPV4;
+                        v_hdrlen := iph + tcph; v_gsosize := it_gso it;
+                        v_cstart := if v6 then 40 else 20; v_coff := 16 |}).
+      { rewrite Hh, Hiph. apply dec_enc_vhdr; [lia|lia| |lia]. destruct v6; lia. }
+      rewrite (kernel_segment_gso true v6 _ F (iph + tcph) (it_gso it) Hdec Hv6 Hl3);
+        [|rewrite Hl; lia|rewrite Hiph; lia|exact Hg1].
+      rewrite Hiph. intros p Hp. apply build_all_in in Hp as [i [seg [lst ->]]].
+      destruct (seg_tcp_bytes v6 tcph
+           {| v_flags := K_NEEDS_CSUM; v_gso := if v6 then K_GSO_TCPV6 else K_GSO_TCPV4;
+              v_hdrlen := (if v6 then 40 else 20) + tcph; v_gsosize := it_gso it;
+              v_cstart := if v6 then 40 else 20; v_coff := 16 |}
+           F (len F - (if v6 then 40 else 20)) i seg lst eq_refl eq_refl eq_refl Htc HhF ltac:(rewrite Hl, <- Hiph; exact Hhl)) as [Ls [_ [Hq _]]].
+      set (sg := build_segment _ true _ _ i seg lst) in *.
+      assert (Hfs : hdr_facts true v6 tcph sg).
+      { destruct HhF as [F1 [F2 [F3 F4]]]. unfold hdr_facts.
+        rewrite !Hq; try (clear - Htc; subst v6 tcph; destruct (it_v6 it); lia).
+        - refine (conj F1 (conj _ (conj F3 F4))). intros Ev. destruct (F2 Ev) as [G1 [G2 G3]].
+          rewrite !Hq; try (clear - Htc Ev; subst v6 tcph; rewrite Ev; lia). auto. }
+      destruct (nsbit_facts v6 tcph sg Hfs ltac:(rewrite Ls; clear - Htc; lia)) as [_ ->].
+      destruct (Hmem m0 Hm0) as [_ ->]. rewrite Hiph in Em0 |- *. rewrite <- Em0.
+      rewrite Hq; try (clear - Htc; subst v6 tcph; destruct (it_v6 it); lia).
+      f_equal. apply HbF; rewrite Hiph in *; clear - Htc Hhl; subst v6 tcph; destruct (it_v6 it); lia.
+    + intros m Hm. apply Hns; [apply Hbnd; exact Hm|apply Hbnd; exact Hm0|apply (Hmem m Hm)|apply (Hmem m0 Hm0)].
+Qed.
+Print Assumptions gro_ns_kept.
+
+Lemma map_canonv (pkf : N -> list N) (c : N) : forall (S : list (list N)) (M : list N),
+  map canon S = map (fun m => canon (pkf m)) M ->
+  (forall x, In x S -> l4_csum_ok x = true) -> (forall m, In m M -> l4_csum_ok (pkf m) = true) ->
+  (forall x, In x S -> nsbit x = c) -> (forall m, In m M -> nsbit (pkf m) = c) ->
+  map canonv S = map (fun m => canonv (pkf m)) M.
+Proof.
+  induction S as [|x S IH]; intros [|m M] H HS HM NS NM; cbn [map] in *; try discriminate; [reflexivity|].
+  inversion H. f_equal.
+  - unfold canonv, canonv_gen. rewrite (HS x) by (left; reflexivity). rewrite (HM m) by (left; reflexivity).
+    rewrite (NS x) by (left; reflexivity). rewrite (NM m) by (left; reflexivity). f_equal. f_equal. assumption.
+  - apply IH; [assumption|intros y Hy; apply HS; right; exact Hy|intros y Hy; apply HM; right; exact Hy
+              |intros y Hy; apply NS; right; exact Hy|intros y Hy; apply NM; right; exact Hy].
+Qed.
+
+(* Clause 6 holds for every batch whose TCP segments agree on the NS/AE flag. *)
 Theorem gro_csum_kept : forall (canUDP : bool) (offset : N) (bufs : list buf),
-  bytes_ok bufs ->
+  bytes_ok bufs -> ns_agree bufs ->
   let s := handle_gro canUDP offset bufs in
   s_err s = false ->
   csum_kept_ok bufs (s_tw s) (s_bufs s) = true.
 Proof.
-  intros udp off inp Hbytes s He.
+  intros udp off inp Hbytes Hns s He.
   pose proof (gro_bookkeeping udp off inp He) as [Hlen [Hnd [Hbound Htrace]]]. fold s in Hlen, Hnd, Hbound, Htrace.
   assert (Htw : s_tw s = tw_of (s_trace s) 0).
   { subst s. unfold handle_gro in *. rewrite gro_loop_is in *.
@@ -183,7 +394,8 @@ Proof.
             map canonv (kernel_segment (b_hdr (get_buf (s_bufs s) j)) (b_pkt (get_buf (s_bufs s) j))) =
             map f (members (s_trace s) j)).
   { intros j Hj. destruct (merged_dec (s_trace s) j) as [Hm|Hm].
-    - apply (map_canonv (fun m => b_pkt (get_buf inp m))).
+    - destruct (gro_ns_kept udp off inp j Hns He Hm) as [c [Hc1 Hc2]]. fold s in Hc1, Hc2.
+      apply (map_canonv (fun m => b_pkt (get_buf inp m)) c); [| | |exact Hc1|exact Hc2].
       + destruct (N.eq_dec (v_gso (dec_vhdr (b_hdr (get_buf (s_bufs s) j)))) GSO_UDP_L4) as [Eu|Eu].
         * apply (gro_udp_lossless udp off inp j He Hm Eu).
         * apply (gro_tcp_lossless udp off inp j Hbytes He Hm Eu).
@@ -193,7 +405,7 @@ Proof.
     - destruct (gro_passthrough udp off inp j He Hj Hm) as [Hp Hz]. fold s in Hp, Hz.
       rewrite (members_fresh _ _ Hm). cbn [map]. unfold f.
       rewrite Hz, kernel_segment_zero, Hp. reflexivity. }
-  unfold csum_kept_ok, segments, written. rewrite flat_map_map, map_flat_map.
+  unfold csum_kept_ok, csum_kept_gen, segments, written. fold canonv. rewrite flat_map_map, map_flat_map.
   rewrite (flat_map_ext_in' _ (fun j => map f (members (s_trace s) j))) by exact Hper.
   rewrite <- map_flat_map.
   apply perm_eqb_complete.
